@@ -344,16 +344,45 @@ def model_par(model, lines, nproc=None, timeout=900):
     size = (len(lines) + nproc - 1) // nproc
     chunks = [lines[i:i + size] for i in range(0, len(lines), size)]
 
+    # a bounded stack (64 MB) on purpose: the extracted decoders turn an OER quantity into a unary nat before
+    # looping (Z.to_nat), so a 5-octet quantity would otherwise eat the machine; the driver answers
+    # "EXN Stack overflow" for such a line (no statement about that input) and goes on
+    cmd = ["bash", "-c", "ulimit -s 65536; exec %s" % model]
+
     def one(ch):
-        rc, out, err = run_lines(model, ch, timeout=timeout)
-        if rc != 0 or len(out) != len(ch):
-            raise RuntimeError("model driver failed: rc=%s %d/%d %s" % (rc, len(out), len(ch), err[-500:]))
+        p = subprocess.run(cmd, input=("\n".join(ch) + "\n").encode(), stdout=subprocess.PIPE, stderr=subprocess.PIPE, timeout=timeout)
+        out = p.stdout.decode("latin-1").split("\n")
+        out.pop()
+        if p.returncode != 0 or len(out) != len(ch):
+            raise RuntimeError("model driver failed: rc=%s %d/%d %s" % (p.returncode, len(out), len(ch), p.stderr.decode("latin-1")[-500:]))
         return out
     res = []
     with ThreadPoolExecutor(max_workers=nproc) as ex:
         for o in ex.map(one, chunks):
             res += o
     return res
+
+
+def model_guarded(model, lines, cpu=2, mem_mb=1500, nproc=None):
+    """the extracted model on lines whose cost is NOT bounded by the input length (a zero-size element repeated
+    `count` times: theorem C04_items_zero_progress): one process per line under CPU and address-space limits;
+    the answer is "LIMIT" when the limit is hit"""
+    # (limits through the shell: preexec_fn is not safe in a threaded parent)
+    cmd = ["bash", "-c", "ulimit -t %d; ulimit -v %d; ulimit -s %d; exec %s" % (cpu, mem_mb * 1024, 64 * 1024, model)]
+
+    def one(l):
+        try:
+            p = subprocess.run(cmd, input=(l + "\n").encode(), stdout=subprocess.PIPE, stderr=subprocess.DEVNULL, timeout=cpu * 10 + 10)
+        except subprocess.TimeoutExpired:
+            return "LIMIT"
+        out = p.stdout.decode("latin-1").split("\n")
+        if p.returncode != 0 or len(out) < 2:
+            return "LIMIT"
+        return out[0]
+    if not lines:
+        return []
+    with ThreadPoolExecutor(max_workers=nproc or NCPU) as ex:
+        return list(ex.map(one, lines))
 
 
 D4 = re.compile(r"^(OK|MORE|FAIL|RC\?) (\d+) (\S+) ck=(-?\d+) re=(\S+) live=(-?\d+)( ATEXIT)?$")
@@ -478,6 +507,25 @@ class BerAccepted:
     def lists_above_bound(self):
         """SEQUENCE OF / SET OF values with more elements than the upper bound of a non-extensible SIZE constraint"""
         return [(t, n) for (t, n) in self.lists if t[2][1] is not None and not t[2][2] and len(n.kids) > t[2][1]]
+
+    def ints_above_bound(self):
+        """unsigned-native INTEGER values above the upper bound of their (non-extensible) constraint"""
+        return [(t, n) for (t, n) in self.typed if t[0] == "i" and int_unsigned_native(t) and t[3] is not None and not t[4]
+                and n.content and int.from_bytes(n.content, "big", signed=True) > t[3]]
+
+    def out_of_constraint(self):
+        """primitive values outside a non-extensible PER-visible constraint (what a UPER encoder must refuse)"""
+        bad = []
+        for (t, n) in self.typed:
+            if n.content is None:
+                continue
+            if t[0] == "o" and not t[4] and not (t[2] <= len(n.content) and (t[3] is None or len(n.content) <= t[3])):
+                bad.append((t, n))
+            if t[0] == "i" and not t[4] and n.content:
+                z = int.from_bytes(n.content, "big", signed=True)
+                if (t[2] is not None and z < t[2]) or (t[3] is not None and z > t[3]):
+                    bad.append((t, n))
+        return bad + self.lists_above_bound()
 
     def negative_in_unsigned(self):
         return [(t, n) for (t, n) in self.typed if t[0] == "i" and int_unsigned_native(t) and n.content and n.content[0] >= 0x80]
